@@ -154,6 +154,7 @@ type tRun struct {
 		data string
 	}
 	stalledSeen bool
+	mem         *tMem // result memory shared by all replies of the run (traversal_own.go)
 	slow        tSlow // slow / rendezvous filter callbacks (traversal_conc.go)
 	groups      int   // overlapping groups released so far
 }
@@ -205,6 +206,11 @@ func (r *tRun) doQuery(ctx context.Context, addr krpc.NodeAddr) traversal.QueryR
 	e.returned = true
 	r.mu.Unlock()
 	var res traversal.QueryResult
+	if r.mem.result(key, resp, &res) && (resp.from != nil || len(resp.nodes)+len(resp.nodes6) > 0) {
+		// windows of the snapshot this run's DoQuery side owns (traversal_own.go)
+		return res
+	}
+	res = traversal.QueryResult{}
 	if resp.from != nil {
 		ni := resp.from.nodeInfo()
 		res.ResponseFrom = &ni
@@ -501,6 +507,7 @@ func sortedKeys(m map[string]bool) []string {
 // the number of options that existed at every completion step.
 func runCase(c *tCase, choices []int, caseID string) (options []int) {
 	r := &tRun{c: c, caseID: caseID, perAddr: map[string]int{}, oracles: map[string]bool{}}
+	r.mem = buildMem(c, caseID)
 	defer func() {
 		if p := recover(); p != nil {
 			r.oracle("C03", "traversal-panic", "%v", p)
@@ -642,6 +649,8 @@ func runCase(c *tCase, choices []int, caseID string) (options []int) {
 	case <-time.After(tDeadline):
 		r.oracle("C03", "stop-did-not-complete", "cleanup")
 	}
+	r.waitReturned()
+	r.mem.verify(r)
 	r.flushOracles()
 	return options
 }
@@ -990,7 +999,7 @@ func traversalEngine(seed uint64, tier string, args []string) {
 		only = args[0] // replay a single case family: prefix of the case id
 	}
 	want := func(id string) bool { return only == "" || strings.HasPrefix(id, only) }
-	kinds := []string{"honest", "silent", "lying", "dupid", "filtered", "datafilter", "mixed", "dupaddr", "edgeid"}
+	kinds := []string{"honest", "silent", "lying", "dupid", "filtered", "datafilter", "mixed", "dupaddr", "edgeid", "filtresp", "tree"}
 	mk := func(g *tGen, kind string, n int, kMax int) *tCase {
 		switch kind {
 		case "honest":
@@ -999,6 +1008,10 @@ func traversalEngine(seed uint64, tier string, args []string) {
 			return g.dupAddr(n-1, 1+g.r.intn(16), kMax)
 		case "edgeid":
 			return g.edge(n, kMax)
+		case "filtresp":
+			return g.filtResp(n, kMax)
+		case "tree":
+			return g.tree(n, kMax)
 		default:
 			return g.messy(n, kMax, kind)
 		}
@@ -1158,6 +1171,7 @@ func traversalEngine(seed uint64, tier string, args []string) {
 			}
 		}
 	}
+	emit("%s", tMemReport())
 	emit("# traversal-conc groups=%d completions=%d armed-callbacks=%d concurrent-callbacks=%d",
 		tConcStats.groups, tConcStats.released, tConcStats.armedCalls, tConcStats.met)
 	fmt.Fprintf(os.Stderr, "traversal: %d cases, %d runs, %d overlapping groups\n", st.cases, st.runs, tConcStats.groups)
